@@ -263,7 +263,7 @@ unit({
 def ARR(name, elem, n):
     return 'typedef struct %s { %s e[%d]; } %s;' % (name, elem, n, name)
 TAG_T = 'typedef struct Tag { char text[4]; } Tag;'
-IH = 'src/Bitmap/ImageHeader.cpp'; BH = 'src/Bitmap/BmpHeader.cpp'; BF = 'src/Bitmap/BitmapFile.cpp'; BR_ = 'src/Bitmap/IndexedBmpReader.cpp'
+IH = 'src/Bitmap/ImageHeader.cpp'; BH = 'src/Bitmap/BmpHeader.cpp'; BF = 'src/Bitmap/BitmapFile.cpp'; BR_ = 'src/Bitmap/IndexedBmpReader.cpp'; BW_ = 'src/Bitmap/IndexedBmpWriter.cpp'
 BMP_TM = {'ImageHeader': 'ImageHeader', 'ImageHeaderV4': 'ImageHeaderV4', 'ImageHeaderV5': 'ImageHeaderV5', 'BmpHeader': 'BmpHeader', 'BmpCompression': 'BmpCompression', 'Color': 'Color',
           'std::array<char,2>': 'arr_char_2', 'std::array<uint16_t,6>': 'arr_u16_6', 'std::vector<Color>': 'vec_Color', 'std::vector<uint8_t>': 'vec_u8',
           'BitmapFile': 'BitmapFile', 'ScanLineOrientation': 'ScanLineOrientation', 'std::string': 'str'}
@@ -311,8 +311,8 @@ unit({
     'typemap': dict(BMP_TM, **{'Stream::Writer': 'Wr', 'Stream::BidirectionalReader': 'Rd'}),
     'enums': [('src/Bitmap/BmpCompression.h', 'BmpCompression'), ('src/Bitmap/BitmapFile.h', 'ScanLineOrientation')],
     'structs': [STR_VIEW] + BMP_STRUCTS,
-    'globals': BMP_GLOBALS,
-    'scoped': {'BmpCompression': 'BmpCompression', 'ScanLineOrientation': 'ScanLineOrientation', 'ImageHeader': 'ImageHeader', 'BmpHeader': 'BmpHeader'},
+    'globals': BMP_GLOBALS + [{'file': 'src/Bitmap/Color.h', 'qual': 'Black', 'ctype': 'Color', 'cname': 'DiscreteColor_Black'}],
+    'scoped': {'BmpCompression': 'BmpCompression', 'ScanLineOrientation': 'ScanLineOrientation', 'ImageHeader': 'ImageHeader', 'BmpHeader': 'BmpHeader', 'DiscreteColor': 'DiscreteColor'},
     'calls': BMP_CALLS,
     'functions': [
         _ih('Create', static=True), _ih('IsValidBitCount', nparams=1, static=True), _ih('IsIndexedImage', nparams=1, static=True),
@@ -345,6 +345,14 @@ unit({
         {'file': BR_, 'qual': 'BitmapFile::ReadIndexed', 'cls': 'BitmapFile', 'static': True, 'cname': 'BitmapFile_ReadIndexed', 'members': {}, 'ret_cxx': 'BitmapFile', 'ordinal': 1,
          'calls': {'ReadBmpHeader': T('BitmapFile_ReadBmpHeader', recv='none', args=['ref']), 'ReadImageHeader': T('BitmapFile_ReadImageHeader', recv='none', args=['ref']),
                    'ReadPalette': T('BitmapFile_ReadPalette', recv='none', args=['ref', 'ref']), 'ReadPixels': T('BitmapFile_ReadPixels', recv='none', args=['ref', 'ref'])}},
+        {'file': BW_, 'qual': 'BitmapFile::WriteHeaders', 'cls': 'BitmapFile', 'static': True, 'cname': 'BitmapFile_WriteHeaders', 'members': {},
+         'calls': {'Write': {1: T('Wr_Write', args=['obj'])}, 'Create': [(r'ImageHeader', T('ImageHeader_Create', recv='none')), (r'BmpHeader', N('BmpHeader_Create', recv='none'))]},
+         'views': [(r'\(\*palette\)', 'vec')]},
+        {'file': BW_, 'qual': 'BitmapFile::WriteIndexed', 'cls': 'BitmapFile', 'cname': 'BitmapFile_WriteIndexed', 'ordinal': 1,
+         'calls': {'Write': {1: [(r'.*', T('Wr_Write', args=['vec']))]}, 'resize': {2: T('vec_Color_resize_fill', args=[None, None])},
+                   'VerifyIndexedImageForSerialization': T('BitmapFile_VerifyIndexedImageForSerialization', recv='none'),
+                   'WriteHeaders': T('BitmapFile_WriteHeaders', recv='none', args=['ref', None, None, None, 'ref']), 'WritePixels': T('BitmapFile_WritePixels', recv='none', args=['ref', 'ref', None, None, None])},
+         'views': [(r'self->palette', 'vec'), (r'self->pixels', 'vec'), (r'paletteFullLength', 'vec')]},
         {'file': 'src/Bitmap/IndexedBmpWriter.cpp', 'qual': 'BitmapFile::WritePixels', 'cls': 'BitmapFile', 'static': True, 'cname': 'BitmapFile_WritePixels', 'members': {},
          'calls': {'Write': {2: T('Wr_Write'), 1: T('Wr_Write', args=['vec'])}}, 'views': [(r'\(\*pixels\)', 'vec'), (r'padding', 'vec')]},
     ],
